@@ -12,6 +12,8 @@ use std::collections::BTreeSet;
 
 pub struct C11;
 
+const BIG_TERMS: [usize; 5] = [255, 256, 257, 314, 600];
+
 impl Property for C11 {
     fn id(&self) -> &'static str {
         "C11"
@@ -21,7 +23,7 @@ impl Property for C11 {
          oracle = objective evaluated exactly on ALL 2^n assignments + multilinear reduction (unique representation); non-trivial = n>=3 and (a monomial with a repeated id or a cancelling pair); distinct = sha256(instance, mode)"
     }
     fn required_labels(&self) -> Vec<String> {
-        ["x^2", "cancel", "deg>2-collapses-to-pair", "refusal=constraint", "refusal=maximize", "refusal=non-binary", "refusal=qubo-3-distinct", "format=pubo", "format=qubo", "regime=general", "regime=dyadic", "removed-constraint-present", "objective-absent", "unused-non-binary-variable", "non-binary-variable-in-removed-constraint", "id=u64::MAX", "objective-absent+refusal"].iter().map(|s| s.to_string()).collect()
+        ["x^2", "cancel", "deg>2-collapses-to-pair", "refusal=constraint", "refusal=maximize", "refusal=non-binary", "refusal=qubo-3-distinct", "format=pubo", "format=qubo", "regime=general", "regime=dyadic", "removed-constraint-present", "objective-absent", "unused-non-binary-variable", "non-binary-variable-in-removed-constraint", "id=u64::MAX", "objective-absent+refusal", "largest-id-at-word-boundary", "sweep=many-raw-terms"].iter().map(|s| s.to_string()).collect()
     }
     fn cases(&self, tier: Tier) -> usize {
         match tier {
@@ -33,6 +35,85 @@ impl Property for C11 {
         320
     }
 
+    fn sweep_len(&self, _tier: Tier) -> usize {
+        BIG_TERMS.len() * 2
+    }
+    fn sweep_description(&self) -> Option<String> {
+        Some("objectives written as 255, 256, 257, 314 and 600 raw (un-merged) terms of degree <= 2 over 8 binary variables (x_i x_j next to x_j x_i, x_i^2 next to x_i), exported as QUBO and as PUBO, compared on all 256 assignments".into())
+    }
+    fn sweep_case(&self, _tier: Tier, i: usize, ctx: &mut Ctx) -> PResult {
+        let nt = BIG_TERMS[i / 2];
+        let qubo = i % 2 == 0;
+        ctx.label("sweep=many-raw-terms");
+        ctx.nontrivial();
+        ctx.fp_dbg(&("many-raw-terms", nt, qubo));
+        ctx.sample_with(|| json!({"sweep": "many raw terms", "terms": nt, "format": if qubo { "qubo" } else { "pubo" }}));
+        let n = 8u64;
+        let seed = 17 + nt as u64;
+        let h = |k: u64, salt: u64| (derived_coeff(seed ^ salt, k).abs() * 16.0) as u64;
+        let mut p = v1::Polynomial::default();
+        for k in 0..nt as u64 {
+            let (a, b) = (h(k, 1) % n, (h(k, 2) + k) % n);
+            let ids = match h(k, 3) % 4 {
+                0 => vec![a],
+                1 => vec![a, a],
+                _ => vec![a, b],
+            };
+            p.terms.push(crate::mk::monomial(ids, derived_coeff(seed, k)));
+        }
+        p.terms.push(crate::mk::monomial(vec![], 2.5));
+        let obj = crate::mk::fpoly(p);
+        let mut inst = v1::Instance::default();
+        inst.sense = SENSE_MIN;
+        for id in 0..n {
+            let mut v = v1::DecisionVariable::default();
+            v.id = id;
+            v.kind = KIND_BINARY;
+            inst.decision_variables.push(v);
+        }
+        inst.objective = Some(obj.clone());
+        let mut got = Poly::zero();
+        if qubo {
+            match inst.as_qubo_format() {
+                Ok((qm, offset)) => {
+                    for (k, v) in &qm {
+                        if k.0 > k.1 || *v == 0.0 {
+                            return fail("C11/many-terms/qubo-key", format!("key {k:?} value {v} is not canonical / non-zero ({nt} raw terms)"));
+                        }
+                        got.add_term(if k.0 == k.1 { vec![k.0] } else { vec![k.0, k.1] }, q(*v));
+                    }
+                    got.add_term(vec![], q(offset));
+                }
+                Err(e) => return fail("C11/many-terms/qubo-rejected", format!("as_qubo_format failed on {nt} raw terms of degree <= 2: {e:#}")),
+            }
+        } else {
+            match inst.as_pubo_format() {
+                Ok(pm) => {
+                    for (k, v) in &pm {
+                        got.add_term(k.iter().copied().collect(), q(*v));
+                    }
+                }
+                Err(e) => return fail("C11/many-terms/pubo-rejected", format!("as_pubo_format failed on {nt} raw terms: {e:#}")),
+            }
+        }
+        let f = Poly::from_function(&obj);
+        if got != f.multilinear() {
+            // coefficients are dyadic: every partial sum is exact, so the export must be exact too
+            for bits in 0..(1u32 << n) {
+                let st: QState = (0..n).map(|id| (id, qi(((bits >> id) & 1) as i64))).collect();
+                let (want, have) = (f.eval(&st).unwrap(), got.eval(&st).unwrap());
+                if want != have {
+                    return fail(
+                        format!("C11/many-terms/{}/assignment", if qubo { "qubo" } else { "pubo" }),
+                        format!("objective of {nt} raw terms over 8 binaries: at x = {bits:#010b} the dictionary gives {} but the objective is {}", q_to_f64(&have), q_to_f64(&want)),
+                    );
+                }
+            }
+            return fail(format!("C11/many-terms/{}/coefficients", if qubo { "qubo" } else { "pubo" }), format!("exported dictionary is not the multilinear form of the objective ({nt} raw terms)"));
+        }
+        Ok(())
+    }
+
     fn run(&self, t: &mut Tape, ctx: &mut Ctx) -> PResult {
         let regime = if t.p(64) { Regime::General } else { Regime::Dyadic };
         ctx.label(if regime == Regime::General { "regime=general" } else { "regime=dyadic" });
@@ -42,8 +123,15 @@ impl Property for C11 {
         let nmax = if ctx.tier == Tier::Quick { 8 } else { 12 };
         let n = 1 + t.choice(nmax);
         let mut ids: Vec<u64> = Vec::new();
-        let mut next = *t.pick(&[0u64, 1, 7, 1 << 35, u64::MAX]);
-        if next == u64::MAX {
+        let mut next = *t.pick(&[0u64, 1, 7, 1 << 35, u64::MAX, 2]);
+        if next == 2 {
+            // small ids plus one id at a word-size boundary as the largest one
+            let top = *t.pick(&[31u64, 32, 63, 64, 65, 127, 128]);
+            ids = (0..n as u64 - 1).collect();
+            ids.push(top);
+            next = top + 1;
+            ctx.label("largest-id-at-word-boundary");
+        } else if next == u64::MAX {
             // the n largest ids there are
             ids = (0..n as u64).map(|i| u64::MAX - (n as u64 - 1 - i)).collect();
             next = 20; // (the optional non-binary variable below gets a small id)
